@@ -152,16 +152,16 @@ def envOf (P : Params) (isLetter : Char → Bool) : Markdown.Env :=
 
 /-- **C09 (create, Markdown, through the document parser)**: for every command (lines `c0 :: more`
 without line feed or final carriage return, the last one not empty), every output `out`, every
-process exit code, both escapers and both inline configurations `create` can write,
+process exit code, both escapers and every inline configuration `create` / `update --convert` write here,
 `scrut create` does not panic and the document it prints is read back by `MarkdownParser::parse` as
 EXACTLY ONE test: the same command lines, the exit code (`none` for 0), the inline configuration, and
 as expectations the texts `ts[i]` written for the lines of `out` -- of which `C09_line_roundtrip`
 says that each parses to an unquantified expectation matching its line and `C09_create_passes` that
 the matcher reports no difference. Any parser environment whose expectation check accepts what the
-grammar parses and whose YAML check accepts `output_stream: stderr` (`envOf` is one). -/
+grammar parses and whose YAML check accepts the written configuration texts (`envOf` is one). -/
 theorem C09_create_markdown_end_to_end (P : Params) (hP : StdParams P) (m : Mode) (isOther : Char → Bool)
     (hC : m = .unicode → AsciiContract isOther) (env : Markdown.Env) (hlang : env.languages = [language])
-    (hcfg : ∀ c, cfgInner .stderr = some c → env.testCfgOk c = true)
+    (hcfg : ∀ cfg c, cfgInner cfg = some c → env.testCfgOk c = true)
     (hexp : ∀ t e, parse P t = .ok e → env.expOk t = true)
     (cfg : ConfigDiff) (c0 : List Char) (more : List (List Char)) (hlines : CmdLines (c0 :: more))
     (hcr : ∀ l ∈ c0 :: more, l.getLast? ≠ some '\r')
@@ -209,9 +209,9 @@ example (mkGlob mkRegex : List Char → Option (List UInt8)) : StdParams (stdPar
 /-- the hypotheses on the parser environment hold for `envOf` -/
 example (P : Params) (isLetter : Char → Bool) :
     (envOf P isLetter).languages = [language] ∧
-    (∀ c, cfgInner .stderr = some c → (envOf P isLetter).testCfgOk c = true) ∧
+    (∀ cfg c, cfgInner cfg = some c → (envOf P isLetter).testCfgOk c = true) ∧
     (∀ t e, parse P t = .ok e → (envOf P isLetter).expOk t = true) :=
-  ⟨rfl, fun _ _ => rfl, fun t e h => by simp [envOf, h]⟩
+  ⟨rfl, fun _ _ _ => rfl, fun t e h => by simp [envOf, h]⟩
 
 /-- a two-line command satisfies `CmdLines` -/
 example : CmdLines [['e', 'c', 'h', 'o', ' ', '\\'], [' ', 'x']] :=
